@@ -86,6 +86,8 @@ def configs(tier):
         for st in ('interval', 'geometric', 'uniform'):
             for strat in ('joint', 'product'):
                 add(d=2, q=1, m=2, mode=mode, imputer=strat, storage=st, calls=2, _cost=1500)
+        add(d=2, q=2, m=2, mode=mode, imputer='joint', storage='batch', labels=4, _cost=300)
+        add(d=2, q=1, m=2, mode=mode, imputer='product', storage='batch', labels=5, _cost=100)
         add(d=2, q=2, m=2, mode=mode, imputer='joint', storage='batch', labels=2, varlabels=True, _cost=4000)
         add(d=1, q=3, m=2, mode=mode, imputer='joint', storage='batch', labels=2, varlabels=True, _cost=500)
         if tier == 'thorough':
